@@ -10,7 +10,7 @@ import (
 	. "vh/vhlib"
 )
 
-const hpackHeader = "From MV Require Import Lib.HBits Lib.HCaseIO Model.Hpack Model.HpackCases.\nFrom Coq Require Import List NArith Bool Uint63.\nImport ListNotations.\nOpen Scope N_scope.\n"
+const hpackHeader = "From MV Require Import Lib.HBits Lib.HCaseIO Model.Hpack Model.HpackCases.\nFrom Coq Require Import List NArith Bool Uint63.\nImport ListNotations.\nOpen Scope N_scope.\n" + ubDefs
 
 type shardSet struct {
 	run *Run
@@ -249,12 +249,16 @@ func coqDecCase(max uint32, ops []dop, obs []dobs, fin tsnap) string {
 
 // hpackSessions: header lists -> encoder (MOSN or x/net) -> {MOSN decoder, x/net decoder, model decoder}
 func hpackSessions(run *Run, ss *shardSet, which string, n int) {
+	hpackSessionsGen(run, ss, which, n, "", func(r *Rng) []sessOp { return genSession(r, 3+r.Intn(run.N(8, 20))) })
+}
+
+func hpackSessionsGen(run *Run, ss *shardSet, which string, n int, tag string, gen func(r *Rng) []sessOp) {
 	r := run.R
 	for s := 0; s < n; s++ {
 		if abortRun {
 			return
 		}
-		sess := genSession(r, 3+r.Intn(run.N(8, 20)))
+		sess := gen(r)
 		var enc encoder
 		var menc *mosnEnc
 		if which == "mosn" {
@@ -326,6 +330,18 @@ func hpackSessions(run *Run, ss *shardSet, which string, n int) {
 				run.Fail("hpack:"+which+"-encoder->xnet-decoder", fmt.Sprintf("block %d: x/net decoder yields %v (%s), encoded list was %v", nblocks, xf, last.Class, op.Block), rep)
 				dead = true
 			}
+			// finder: the two implementations must agree with each other - same outcome, same header list,
+			// same dynamic table (read through the wire from both decoders)
+			if compareReference && !dead {
+				ml, xl := mo[len(mo)-1], xo[len(xo)-1]
+				if (ml.Class == "WOk") != (xl.Class == "WOk") || !fieldsEqual(mf, xf) {
+					run.Fail("hpack:decoders-disagree:"+which+"-encoder", fmt.Sprintf("block %d: MOSN decoder %s %d fields, reference decoder %s %d fields", nblocks, ml.Class, len(mf), xl.Class, len(xf)), rep)
+					dead = true
+				} else if mt, xt := probeEntries(md), probeEntries(xd); !fieldsEqual(mt, xt) {
+					run.Fail("hpack:dynamic-tables-differ:mosn-vs-reference", fmt.Sprintf("after block %d (%s encoder) MOSN's decoder holds %d dynamic entries, the reference decoder %d", nblocks, which, len(mt), len(xt)), rep)
+					dead = true
+				}
+			}
 			if menc != nil && !dead {
 				et := snapOf(menc.e.VerifTable())
 				dt, _ := md.table()
@@ -348,7 +364,7 @@ func hpackSessions(run *Run, ss *shardSet, which string, n int) {
 			ss.add("enc", hpackHeader, "enc_case", "enc_mismatches", 25,
 				fmt.Sprintf("(%s, %s, %s)", CoqList(po), CoqList(eouts), snapOf(menc.e.VerifTable()).coq()), rep)
 		}
-		run.Count(fmt.Sprintf("sess|%s|%v", which, sess), nblocks >= 2, "hpack-session-"+which, fmt.Sprintf("hpack-session-updates=%d", min(nupd, 3)))
+		run.Count(fmt.Sprintf("sess|%s|%v", which, sess), nblocks >= 2, "hpack-session-"+which+tag, fmt.Sprintf("hpack-session-updates=%d", min(nupd, 3)))
 		if s < 2 {
 			run.Sample(map[string]interface{}{"part": "hpack-session", "encoder": which, "blocks": nblocks, "table_size_updates": nupd, "first_ops": sess[:min(2, len(sess))]})
 		}
